@@ -381,6 +381,10 @@ Apply(st, a) ==
      [] a.a = "rollto"   -> DoRollTo(st, a)
      [] a.a = "release"  -> DoRelease(st, a)
      [] a.a = "q"        -> DoQuery(st, a)
+     \* persistence (C18, C19): saving and loading back is the identity on tables, rows and index definitions
+     [] a.a = "saveload" -> IF st.txn.active THEN Res("unmodelled", st, 0) ELSE Ok(st, 0)
+     \* loading a damaged file (C20) either works or returns an error; the running database is not touched
+     [] a.a = "corruptload" -> [Ok(st, 0) EXCEPT !.alt = "err"]
      [] OTHER            -> Res("unmodelled", st, 0)
 
 \* ---------- action constructors (generators use these) ----------
